@@ -261,7 +261,9 @@ func secchanFamily(a *Args) error {
 					}
 					bb, _ := ioutil.ReadAll(out)
 					rel2 = append(rel2, bb...)
-					okEnd2 = end
+					if !anyErr {
+						okEnd2 = end
+					}
 				}
 				if pos < len(stream) && !anyErr {
 					anyErr = true // a length prefix that never completes
@@ -277,6 +279,94 @@ func secchanFamily(a *Args) error {
 					n2++
 				}
 				lines = append(lines, J{"ev": "stream", "case": b.ID, "i": len(wire) - 1, "v": v, "level": "frames", "wire": wire, "nrel": n2, "relok": ok2, "err": anyErr, "offs": offs, "okend": okEnd2})
+			}
+		}
+		// third delivery: a cut does not end the attack. The items up to and including a cut frame arrive in one piece (and
+		// that read ends there); what follows on the wire arrives afterwards. Once with frames of mixed sizes and once with
+		// full frames only (hc's Decrypt goes on reading after a full frame, so that several frames share one call).
+		cutInside := false
+		for k, it := range wire {
+			if it.Alt == "cut" && k < len(wire)-1 {
+				cutInside = true
+			}
+		}
+		if cutInside {
+			full := []int{1024}
+			for _, sz := range [][]int{sizes, full} {
+				m2 := map[string]scFrames{}
+				for si, sname := range []string{"this", "other"} {
+					cs := ref.NewControllerSession(secrets[si])
+					m2[sname+"/fwd"] = scMake(cs.WriteKey[:], maxIdx, rng, sz)
+					m2[sname+"/rev"] = scMake(cs.ReadKey[:], maxIdx, rng, sz)
+				}
+				var segs [][]byte
+				var cur []byte
+				offs := []int{}
+				total := 0
+				for _, it := range wire {
+					fr := m2[it.Sess+"/"+it.Dir].wire[it.Idx-1]
+					switch it.Alt {
+					case "len", "ct", "tag":
+						fr = flipField(fr, it.Alt, rng.Intn(1<<20))
+					case "cut":
+						fr = fr[:1+rng.Intn(len(fr)-1)]
+					case "zero":
+						fr = make([]byte, 18)
+						rng.Read(fr[2:])
+					}
+					offs = append(offs, total)
+					total += len(fr)
+					cur = append(cur, fr...)
+					if it.Alt == "cut" {
+						segs = append(segs, cur)
+						cur = nil
+					}
+				}
+				if len(cur) > 0 {
+					segs = append(segs, cur)
+				}
+				c3, err := hccrypto.NewSecureSessionFromSharedKey(secrets[0])
+				if err != nil {
+					mu.Lock()
+					firstErr = err
+					mu.Unlock()
+					return
+				}
+				var rel3 []byte
+				anyErr := false
+				okEnd3, base := 0, 0
+				for _, seg := range segs {
+					r := bytes.NewReader(seg)
+					for r.Len() > 0 {
+						out, e := c3.Decrypt(r)
+						if e != nil {
+							anyErr = true
+							break // the rest of this piece is lost with the failed read
+						}
+						bb, _ := ioutil.ReadAll(out)
+						rel3 = append(rel3, bb...)
+						if !anyErr {
+							okEnd3 = base + len(seg) - r.Len()
+						}
+					}
+					base += len(seg)
+				}
+				sent := m2["this/fwd"].plain
+				n3, ok3 := 0, true
+				rest3 := rel3
+				for len(rest3) > 0 {
+					if n3 >= len(sent) || len(rest3) < len(sent[n3]) || !bytes.Equal(rest3[:len(sent[n3])], sent[n3]) {
+						ok3 = false
+						break
+					}
+					rest3 = rest3[len(sent[n3]):]
+					n3++
+				}
+				level := "pieces"
+				if len(sz) == 1 {
+					level = "pieces-full"
+				}
+				lines = append(lines, J{"ev": "stream", "case": b.ID, "i": len(wire) - 1, "v": 0, "level": level, "wire": wire, "nrel": n3, "relok": ok3, "err": anyErr, "offs": offs, "okend": okEnd3})
 			}
 		}
 		tr.Block(lines)
